@@ -2,7 +2,7 @@
    of Model/Variation.v run on the recorded oracle tape, and the exact-rational gen_vector
    compared with the implementation's floats under the tolerance carried by the case. *)
 From Coq Require Import List ZArith QArith Qabs Bool Floats.
-From Artap Require Export Base.Ord Base.FloatInst Model.Variation Model.VariationRun.
+From Artap Require Export Base.Ord Base.FloatInst Model.Variation Model.VariationRun Model.VariationGen.
 Import ListNotations.
 
 Local Open Scope float_scope.
@@ -131,3 +131,37 @@ Definition run_obs_eqb (a b : run_obs) : bool :=
   end.
 
 Definition mk_breed (i1 i2 : nat) (t m1 m2 : list (entry (T:=float))) : breed (T:=float) := Build_breed i1 i2 t m1 m2.
+
+(* ---------------------------------------------------------------------------------------------------------
+   Design-of-experiment generators.  Level designs (full factorial with / without centre, Plackett-Burman,
+   Box-Behnken): the level lists are rebuilt from the parameter bounds (mid-point in binary64), the index
+   matrix is the one the pyDOE routine produced; rows compared bit for bit.  Scaled designs (LHS, Halton) and
+   the uniform grid: exact-rational model compared under the tolerance carried by the case. *)
+Definition fmid (p : float * float) : float := (fst p + snd p) / 0x1p+1.
+
+Record lvl_case := { l_three : bool; l_params : list (float * float); l_x : list (list nat) }.
+
+Definition c08_lvl_run (c : lvl_case) : option (list (list float)) :=
+  construct_df (map (if l_three c then levels3 fmid else levels2) (l_params c)) (l_x c).
+
+Definition lvl_obs_eqb (a b : option (list (list float))) : bool :=
+  match a, b with
+  | None, None => true
+  | Some x, Some y => fll_eqb x y
+  | _, _ => false
+  end.
+
+(* kind: None = scaled design (d_w = the row of the unit cube); Some n = uniform grid with n levels
+   (d_idx = the level index of each coordinate) *)
+Record sc_case := { d_grid : option nat; d_params : list (Q * Q); d_w : list Q; d_idx : list nat;
+                    d_impl : list Q; d_tol : list Q }.
+
+Definition c08_sc_run (c : sc_case) : nat :=
+  let r := match d_grid c with
+           | None => scale_row (d_params c) (d_w c)
+           | Some n => construct_row (map (grid_levels n) (d_params c)) (d_idx c)
+           end in
+  match r with
+  | None => 1%nat
+  | Some v => if qclose v (d_impl c) (d_tol c) then 0%nat else 2%nat
+  end.
